@@ -41,7 +41,8 @@ func c18(r *hx.Run) {
 	}
 	thorough := r.Tier == "thorough"
 
-	// one case: quote q, verification options builder, validation options
+	ccelGenuine := ccelB
+	// one case: quote q, verification options builder, validation options (the event log is `ccelB`, re-assigned by the log family)
 	run := func(q *pb.QuoteV4, vo func() *verify.Options, val *validate.Options, tags ...string) {
 		clone := func() *pb.QuoteV4 {
 			if q == nil {
@@ -70,30 +71,44 @@ func c18(r *hx.Run) {
 		// the gates alone, and the replay computed directly with go-eventlog on the harness's own bank
 		v := gateStr(func() error { return verify.TdxQuote(clone(), vo()) })
 		va := gateStr(func() error { return validate.TdxQuote(clone(), val) })
+		// the replay: what go-eventlog hands back for the bank of this quote — a Go pair: a state, an error, or BOTH (the replay
+		// matched but an extraction step failed, e.g. "no GRUB measurements found" for a log without GRUB events)
 		rp := "err"
 		if q != nil && q.TdQuoteBody != nil && len(q.TdQuoteBody.Rtmrs) <= 4 {
 			bank := register.RTMRBank{}
 			for i, d := range q.TdQuoteBody.Rtmrs {
 				bank.RTMRs = append(bank.RTMRs, register.RTMR{Index: i, Digest: d})
 			}
-			rp = gateStr(func() error { _, err := ccel.ReplayAndExtract(tableB, ccelB, bank, opts.ExtractOpt); return err })
+			rp, _ = hx.Guard(func() string {
+				st, err := ccel.ReplayAndExtract(tableB, ccelB, bank, opts.ExtractOpt)
+				switch {
+				case st != nil && err == nil:
+					return "ok"
+				case st != nil:
+					return "state+err"
+				case err != nil:
+					return "err"
+				}
+				return "nil"
+			})
 		}
+		replayGivesState := rp == "ok" || rp == "state+err"
 		fail := ""
 		switch {
 		case obs == "panic":
 			fail = "crash: " + strings.SplitN(stack, "\n", 2)[0]
-		case obs == "state+err":
-			fail = "a state was returned together with an error"
 		case gotState && v != "ok":
 			fail = "state returned although verification fails when called alone"
 		case gotState && va != "ok":
 			fail = "state returned although policy validation fails when called alone"
-		case gotState && rp != "ok":
-			fail = "state returned although replaying the log against the quote's RTMRs fails"
+		case gotState && !replayGivesState:
+			fail = "state returned although replaying the log against the quote's RTMRs yields no state"
+		case (v != "ok" || va != "ok") && gerr == nil:
+			fail = "a gate fails when called alone but the call returned no error"
 		case !gotState && gerr == nil:
 			fail = "neither a state nor an error"
-		case !gotState && v == "ok" && va == "ok" && rp == "ok":
-			fail = "both gates pass and the replay matches, but no state was returned: " + gerr.Error()
+		case !gotState && v == "ok" && va == "ok" && replayGivesState:
+			fail = "both gates pass and the replay yields a state, but no state was returned: " + gerr.Error()
 		}
 		line := fmt.Sprintf("C18.parse v=%s val=%s rp=%s %s", v, va, rp, msgTokens(q))
 		r.Emit(line, obs, fail, fmt.Sprint(hx.Fnv1a([]byte(line))), v == "ok" && va == "ok", append(tags, "c18:"+obs)...)
@@ -199,6 +214,27 @@ func c18(r *hx.Run) {
 		}
 	}
 	delete(vfaults, "none")
+	// other event logs — none at all, an empty one, the genuine one cut short, with one byte changed — with a good quote and with
+	// quotes each gate refuses: what is (or is not) in the log never opens a gate
+	{
+		half := append([]byte{}, ccelGenuine[:len(ccelGenuine)/2]...)
+		flipped := append([]byte{}, ccelGenuine...)
+		flipped[len(flipped)/3] ^= 0x10
+		logs := map[string][]byte{"nil": nil, "empty": {}, "first-half": half, "one-byte-changed": flipped, "one-zero-byte": {0}}
+		gw, gvo := build(nil)
+		for lname, lb := range logs {
+			ccelB = lb
+			run(src, func() *verify.Options { return rtmr.TdxDefaultOpts(nonce).Verification }, defVal(nonce), "log:"+lname, "quote:genuine")
+			run(gw.Quote, gvo, defVal(nonce), "log:"+lname, "quote:resigned")
+			run(gw.Quote, gvo, defVal(wrongNonce), "log:"+lname, "quote:wrong-nonce")
+			run(gw.Quote, gvo, nil, "log:"+lname, "quote:policy-nil")
+			for _, name := range []string{"quote-signed-by-foreign-key", "qe-report-signed-by-foreign", "body-changed-after-signing", "foreign-root", "leaf-expired"} {
+				fw, fvo := build(vfaults[name])
+				run(fw.Quote, fvo, defVal(nonce), "log:"+lname, "vfault:"+name)
+			}
+		}
+		ccelB = ccelGenuine
+	}
 	// policy faults
 	w, vo = build(nil)
 	pol := func(f func(o *validate.Options)) *validate.Options { o := defVal(nonce); f(o); return o }
@@ -249,18 +285,40 @@ func c18(r *hx.Run) {
 	// "the given policy" of the default options is the caller's nonce, per option set: several default option sets alive at once
 	// (harness-only; nonce lengths 0..64 incl. a short one after a long one)
 	{
-		nonces := [][]byte{hx.RandBytes(rng, 64), hx.RandBytes(rng, 64), hx.RandBytes(rng, 20), nil, hx.RandBytes(rng, 1), hx.RandBytes(rng, 63), nonce}
+		// the nonce buffers are the caller's: some are cut from larger buffers (spare capacity behind the nonce), and all of them
+		// are overwritten once the option sets exist (a server reusing its receive buffer) — the options keep the nonce they were
+		// made for, and making them wrote nothing into the caller's buffers
+		big1, big2, big3 := hx.RandBytes(rng, 96), hx.RandBytes(rng, 96), hx.RandBytes(rng, 200)
+		nonces := [][]byte{hx.RandBytes(rng, 64), hx.RandBytes(rng, 64), hx.RandBytes(rng, 20), nil, hx.RandBytes(rng, 1), hx.RandBytes(rng, 63), append([]byte{}, nonce...),
+			big1[:20], big2[:64], big3[:100], append(make([]byte, 0, 64), hx.RandBytes(rng, 64)...)}
 		var sets []rtmr.ParseTdxCcelOpts
+		var orig, origCap [][]byte
+		for _, n := range nonces {
+			orig = append(orig, append([]byte{}, n...))
+			origCap = append(origCap, append([]byte{}, n[:cap(n)]...))
+		}
 		for _, n := range nonces {
 			sets = append(sets, rtmr.TdxDefaultOpts(n))
 		}
+		wrote := -1
 		for i, n := range nonces {
+			if !bytes.Equal(n[:cap(n)], origCap[i]) {
+				wrote = i
+			}
+			for k := range n[:cap(n)] {
+				n[:cap(n)][k] ^= 0xa5
+			}
+		}
+		for i := range nonces {
+			n := orig[i]
 			want := make([]byte, 64)
 			copy(want, n)
 			obs, fail := "bound", ""
 			got := sets[i].Validation.TdQuoteBodyOptions.ReportData
-			if !bytes.Equal(got, want) {
-				obs, fail = "rebound", fmt.Sprintf("default options created for nonce #%d (%d bytes) expect REPORT_DATA %x.. after later TdxDefaultOpts calls, not the nonce padded with zeros %x..", i, len(n), got[:min(8, len(got))], want[:8])
+			if wrote == i {
+				obs, fail = "wrote", fmt.Sprintf("TdxDefaultOpts wrote into the caller's nonce buffer #%d (%d bytes, capacity %d)", i, len(n), len(origCap[i]))
+			} else if !bytes.Equal(got, want) {
+				obs, fail = "rebound", fmt.Sprintf("default options created for nonce #%d (%d bytes) expect REPORT_DATA %x.. once later option sets exist and the caller has reused its nonce buffer, not the nonce they were made for, padded with zeros, %x..", i, len(n), got[:min(8, len(got))], want[:8])
 			}
 			for j := range sets {
 				if j != i && sets[j].Validation == sets[i].Validation {
